@@ -8,11 +8,39 @@ package workceptor
 
 // ---- C19: secret work parameters
 
+// the in-memory record is handed out as a fresh copy without its extra data (proved for BaseWorkUnit, assumed for
+// other implementations of the interface)
+//@ iface BaseWorkUnitForWorkUnit.GetStatusWithoutExtraData
+//@   params b
+//@   modifies nothing
+//@   ensures FRESHSTATUS: result != nil && fresh(result) && result.ExtraData == nil
+//@ iface BaseWorkUnitForWorkUnit.GetStatusCopy
+//@   params b
+//@   modifies nothing
+//@ iface BaseWorkUnitForWorkUnit.GetStatusLock
+//@   params b
+//@   pure
+//@   ensures NONNIL: result != nil
+//@ func (*BaseWorkUnit).getStatus
+//@   tags C19
+//@   requires bwu != nil
+//@   modifies nothing
+//@   ensures FRESHSTATUS: [C19] result != nil && fresh(result) && result.ExtraData == nil && result.State == bwu.status.State && result.StdoutSize == bwu.status.StdoutSize && result.WorkType == bwu.status.WorkType
+//@ func (*BaseWorkUnit).GetStatusWithoutExtraData
+//@   tags C19
+//@   requires bwu != nil
+//@   modifies nothing
+//@   ensures FRESHSTATUS: [C19] result != nil && fresh(result) && result.ExtraData == nil
+
 //@ func (*remoteUnit).UnredactedStatus
 //@   tags C19
-//@   trusted
 //@   requires rw != nil
 //@   modifies nothing
+//@   loop range ed.RemoteParams
+//@     invariant COPYING: [C19] fresh(edCopy.RemoteParams) && edCopy.RemoteParams != nil && framemap(edCopy.RemoteParams) && fresh(status) && status != nil
+//@     invariant SOFAR: [C19] forall k string :: (k in edCopy.RemoteParams) ==> (k in ed.RemoteParams) && edCopy.RemoteParams[k] == ed.RemoteParams[k]
+//@     invariant DONE: [C19] forall k string :: visited(k) ==> (k in edCopy.RemoteParams)
+//@   ensures ALLPARAMS: [C19] typeis(result.ExtraData, "*RemoteExtraData") && ok ==> forall k string :: (k in ed.RemoteParams) ==> (k in unbox(result.ExtraData, "*RemoteExtraData").RemoteParams) && unbox(result.ExtraData, "*RemoteExtraData").RemoteParams[k] == ed.RemoteParams[k]
 //@   ensures FRESH: result != nil && fresh(result)
 //@   ensures COPY: typeis(result.ExtraData, "*RemoteExtraData") ==> unbox(result.ExtraData, "*RemoteExtraData") != nil && fresh(unbox(result.ExtraData, "*RemoteExtraData")) && fresh(unbox(result.ExtraData, "*RemoteExtraData").RemoteParams) && unbox(result.ExtraData, "*RemoteExtraData").RemoteParams != nil
 
